@@ -103,7 +103,10 @@ pub fn diff_m(exp: &M, got: &M) -> Vec<(Cat, String)> {
             if (&e.key, &e.limit) != (&g.key, &g.limit) {
                 d.push((Cat::KeyLimit, format!("channel {} key/limit expected {:?} got {:?}", n, (&e.key, &e.limit), (&g.key, &g.limit))));
             }
-            if e.topic != g.topic {
+            // the topic is its text: whom the server records as the setter of a text (shown in
+            // 333) is not constrained by any statement - a server may keep the first setter of a
+            // text that is set again unchanged
+            if e.topic.as_ref().map(|t| &t.0) != g.topic.as_ref().map(|t| &t.0) {
                 d.push((Cat::Topic, format!("channel {} topic expected {:?} got {:?}", n, e.topic, g.topic)));
             }
             if (e.precfg, &e.def) != (g.precfg, &g.def) {
